@@ -224,10 +224,16 @@ def eval_family(case):
             return Outcome(True, [], [("derivation_raises_" + type(e).__name__, f"{case['derive']!r}: {e}")])
         reqs = list(case["reqs"]) * case.get("repeat", 1)
         methods = ["get", "post", "put", "delete", "patch"]
+        shared_hdrs = {"Accept": "text/plain"}
         try:
             for n, (ci, own) in enumerate(reqs):
                 c = conns[ci % len(conns)]
-                hdrs = {"X-Request-ID": own} if own is not None else None
+                if own is not None:
+                    hdrs = {"X-Request-ID": own}
+                elif case.get("shared_headers"):
+                    hdrs = shared_hdrs          # the caller keeps one headers dict and passes it to every request
+                else:
+                    hdrs = None
                 getattr(c, methods[(n + ci) % 5] if case.get("methods") else "get")("/p", headers=hdrs)
         except Exception as e:   # noqa
             f.append(("request_raises_" + type(e).__name__, f"request {n} through connection {ci % len(conns)} of "
@@ -272,6 +278,8 @@ def eval_family(case):
         depth = max(depth, d[n + 1])
     if depth >= 2:
         classes.append("derivation_depth_ge_2")
+    if case.get("shared_headers"):
+        classes.append("caller_reuses_one_headers_dict")
     nt = len(used) >= 2 and len(gen) >= 3
     return Outcome(nt, classes, f, key=[case["derive"], case["reqs"], case.get("repeat", 1)],
                    sample={"derive": case["derive"], "reqs": case["reqs"][:10], "repeat": case.get("repeat", 1)})
@@ -283,6 +291,7 @@ def st_family():
         "derive": st.lists(st.tuples(idx, st.sampled_from(FAMILY_KINDS)).map(list), min_size=1, max_size=6),
         "reqs": st.lists(st.tuples(idx, st.sampled_from([None, None, None, "own-1", "0000-own"])).map(list), min_size=3, max_size=14),
         "methods": st.booleans(),
+        "shared_headers": st.booleans(),
     })
 
 
